@@ -196,6 +196,16 @@ static Type *get_common_type(Type *ty1, Type *ty2) {
   return ty1;
 }
 
+// [https://www.sigbus.info/n1570#6.10.1p4] In #if, all signed integer
+// types act as intmax_t, so the int result of a relational, equality
+// or logical operator is as wide as intmax_t there: (!0) << 40 is
+// nonzero.
+bool in_pp_const_expr;
+
+static Type *truth_type(void) {
+  return in_pp_const_expr ? ty_long : ty_int;
+}
+
 // The type an operand has for the purpose of the integer promotions.
 // A bit-field is promoted according to its width, not its declared
 // type: if int can represent all its values it becomes int (C11
@@ -271,7 +281,7 @@ void add_type(Node *node) {
   case ND_LT:
   case ND_LE:
     usual_arith_conv(&node->lhs, &node->rhs);
-    node->ty = ty_int;
+    node->ty = truth_type();
     return;
   case ND_FUNCALL:
     node->ty = node->func_ty->return_ty;
@@ -279,7 +289,7 @@ void add_type(Node *node) {
   case ND_NOT:
   case ND_LOGOR:
   case ND_LOGAND:
-    node->ty = ty_int;
+    node->ty = truth_type();
     return;
   case ND_BITNOT:
   case ND_SHL:
